@@ -45,3 +45,36 @@ package helpers
 //@   ensures [desc] str_index(name, ":") >= 0 && str_lower(sf1(name)) == "desc" ==> err == nil && realname == str_lower(sf0(name)) && reverse
 //@   ensures [rev] str_index(name, ":") >= 0 && (str_lower(sf1(name)) == "rev" || str_lower(sf1(name)) == "reverse") ==> err == nil && reverse == !(str_lower(sf0(name)) == "value")
 //@   ensures [bad-modifier] str_index(name, ":") >= 0 && str_lower(sf1(name)) != "asc" && str_lower(sf1(name)) != "desc" && str_lower(sf1(name)) != "rev" && str_lower(sf1(name)) != "reverse" ==> err != nil
+
+// ---- C05: render vs. sample mutual exclusion, final render after the last sample ----
+// the aggregator and the render callback are opaque; they only change their own state
+//@ iface rare/pkg/aggregation.Aggregator.Sample
+//@   params (this, element)
+//@   modifies world
+//@ functype func()
+//@   params (this)
+//@   modifies world
+//@ extern rare/pkg/logger.DeferLogs
+//@   pure
+//@ extern os/signal.Notify
+//@   pure
+//@ extern time.After
+//@   pure
+//@   ensures result != nil
+
+// O1: every Sample runs under outputMutex.  O4: the final writeOutput runs after exactly one
+// send on the UNBUFFERED outputDone channel (a rendezvous: the ticker goroutine has left its
+// loop and will not render again), so it cannot overlap a periodic render.
+//@ func RunAggregationLoop
+//@   requires ext != nil && aggregator != nil && writeOutput != nil
+//@   assert at "aggregator.Sample(match.Extracted)" : mu_held(addrof(outputMutex))
+//@   assert at "writeOutput()" : chan_cap(outputDone) == 0 && chan_sends(outputDone) == 1 && !mu_held(addrof(outputMutex))
+//@   loop 1 invariant chan_cap(outputDone) == 0 && chan_sends(outputDone) == 0 && !mu_held(addrof(outputMutex)) && !chan_closed(outputDone)
+//@   loop 2 invariant chan_cap(outputDone) == 0 && chan_sends(outputDone) == 0 && mu_held(addrof(outputMutex)) && !chan_closed(outputDone)
+
+// O2/O3: the ticker renders only under outputMutex and returns without rendering once it
+// receives the done signal.
+//@ func RunAggregationLoop$1
+//@   requires *writeOutput != nil && !mu_held(outputMutex)
+//@   assert at "writeOutput()" : mu_held(outputMutex)
+//@   loop 1 invariant !mu_held(outputMutex)
